@@ -224,6 +224,39 @@ where
 }
 
 pub fn runner_cli(cfg: &spec::Cfg) -> RunnerCli {
+    // every other configuration goes the way a user's does: as command-line arguments through the
+    // crate's own `clap` definitions (long names, the `-c` / `--ff` spellings, `humantime` durations,
+    // tag expressions); what the runner gets is whatever that parse produced
+    let mut argv: Vec<String> = vec!["prog".into()];
+    let mut spelling = 0usize;
+    if let Some(k) = cfg.cli_concurrency {
+        spelling += k % 7;
+        argv.extend([if k % 2 == 0 { "--concurrency".to_owned() } else { "-c".to_owned() }, k.to_string()]);
+    }
+    if cfg.cli_ff {
+        argv.push(if spelling % 2 == 0 { "--fail-fast".to_owned() } else { "--ff".to_owned() });
+    }
+    if let Some(n) = cfg.cli_retry {
+        spelling += n;
+        argv.push(format!("--retry={n}"));
+    }
+    if let Some(us) = cfg.cli_retry_after_us {
+        spelling += (us % 5) as usize;
+        argv.extend(["--retry-after".to_owned(), spec::delay_text(us)]);
+    }
+    if let Some(f) = &cfg.cli_filter {
+        argv.extend(["--retry-tag-filter".to_owned(), f.clone()]);
+    }
+    if (spelling + argv.len()) % 2 == 1 {
+        type Opts = cucumber::cli::Opts<cucumber::cli::Empty, RunnerCli, cucumber::cli::Empty, cucumber::cli::Empty>;
+        match <Opts as cucumber::cli::Parser>::try_parse_from(&argv) {
+            Ok(o) => {
+                crate::world::with_rs(|rs| rs.cli_from_argv = true);
+                return o.runner;
+            }
+            Err(e) => panic!("the crate's CLI rejected {argv:?}: {e}"),
+        }
+    }
     RunnerCli {
         concurrency: cfg.cli_concurrency,
         fail_fast: cfg.cli_ff,
